@@ -1,5 +1,6 @@
 import CJ.Lemmas.HalfPipe
 import CJ.Gen.RelayShape
+import CJ.Gen.RelayLoop
 /-!
 # C05 — the proxy relays byte streams faithfully and always tears both sides down
 
@@ -144,6 +145,39 @@ scripted read plus three (initial deadlines and the read that finds the script e
 theorem halfpipe_calls_bounded (up : Bool) (st : Stats) (s : Script) :
     (halfPipe up st s).trace.length ≤ 4 * s.reads.length + 3 := by
   rw [halfPipe_trace]; exact run_trace_bound s
+
+/-- **A read error ends the direction — it is never retried.**  Error-free reads `pre`, then a read that
+reports an error `e` of *any* kind (EOF, reset, a timeout, an error whose `Temporary()` is true such as
+the deadline error or EAGAIN / EINTR): the direction makes no further `Read`, whatever the connection
+would answer afterwards (`rest`: the same error for ever, for a deadline that stays expired).  Together
+with `teardown_on_every_exit` and `halfpipe_calls_bounded`: an error that persists cannot keep a direction
+spinning; it ends, closes both sides and releases the wait group. -/
+theorem read_error_ends_direction (up : Bool) (st : Stats) (pre : List ReadRes) (bs : Bytes) (e : Err)
+    (rest : List ReadRes) (ws : List WriteRes) (ds : List DlRes) (cs cd : Option Err) :
+    nReads (halfPipe up st ⟨pre ++ ⟨bs, some e⟩ :: rest, ws, ds, cs, cd⟩).trace ≤ pre.length + 1 := by
+  rw [halfPipe_trace]; exact run_reads_until_error pre bs e rest ws ds cs cd
+
+/-- … and what the connection would have answered afterwards is irrelevant to everything observable:
+the script after the first failing read can be replaced by any other -/
+theorem after_read_error_irrelevant (up : Bool) (st : Stats) (pre : List ReadRes) (hpre : ∀ r ∈ pre, r.err = none)
+    (bs : Bytes) (e : Err) (rest rest' : List ReadRes) (ws : List WriteRes) (ds : List DlRes) (cs cd : Option Err) :
+    halfPipe up st ⟨pre ++ ⟨bs, some e⟩ :: rest, ws, ds, cs, cd⟩ =
+      halfPipe up st ⟨pre ++ ⟨bs, some e⟩ :: rest', ws, ds, cs, cd⟩ := by
+  have hl : ∀ ws ds, loop (pre ++ ⟨bs, some e⟩ :: rest) ws ds = loop (pre ++ ⟨bs, some e⟩ :: rest') ws ds := by
+    induction pre with
+    | nil => intro ws ds; simp [loop, afterWrite]
+    | cons r pre ih =>
+      intro ws ds
+      have hr : r.err = none := hpre r (by simp)
+      have ih' := ih (fun x hx => hpre x (by simp [hx]))
+      simp only [List.cons_append, loop, hr, afterWrite, ih']
+  simp only [halfPipe, halfPipeP, exec, canonical, hl]
+
+/-- **Tie 1 for the loop body**: the statements of the relay loop in the source under check are the ones
+`loop` mirrors — `Read`; write what was read and `break` on a write error or a short write; `break` on a
+read error (no `continue`, no retry); re-arm both deadlines, `return` on failure -/
+theorem halfpipe_loop_matches :
+    CJ.RelayClock.loopSkeleton CJ.Gen.relayLoopStmts = CJ.RelayClock.canonicalLoop := by decide
 
 /-- the asynchronous close of the source and the synchronous close of the destination may run in either
 order: the recorded error texts are the same -/
